@@ -116,6 +116,9 @@ def run_reader(target, cfg, noise, suffix, sent, spec, ctx, case) -> bool:
         if not isinstance(msgs, list):
             ctx.violation("C14:read-returned-non-list", f"read() returned {type(msgs).__name__}", case)
             msgs = list(msgs or [])
+        if any(m is hdlc_mon.POISON or m is p1_mon.POISON for m in msgs):
+            ctx.violation("C14:returned-list-shared-between-calls", "read() handed back an object that a caller had appended to the list returned by an earlier call", case)
+            msgs = [m for m in msgs if m is not hdlc_mon.POISON and m is not p1_mon.POISON]
         probe_messages(ctx, msgs, case)
         if fed <= len(noise) and (msgs or not reader.is_in_hunt_mode):
             left_hunt = True
